@@ -20,6 +20,7 @@ pub proof fn lemma_or_chunk_seq{X}(prev: Seq<{I}>, nd: Seq<{I}>, src: Seq<{I}>, 
     let d = srcw >> s;
     assert forall|k: {I}| p <= k < p + l implies !wbit{X}(tw, k as nat) by {
         let t = wi * {I.bits} + k;
+        lemma_divmod_at{X}(wi, k as int);
         assert(t / {I.bits} == wi && t % {I.bits} == k as int);
         assert(ni <= t < ni + l);
         assert(bit_at{X}(prev, t) == wbit{X}(tw, k as nat));
